@@ -46,6 +46,8 @@ type ShareAvailability struct {
 	// autobatch which requires unnecessary coordination.
 	dsLk sync.RWMutex
 	ds   *autobatch.Datastore
+	// rawDS is the datastore ds buffers writes for.
+	rawDS datastore.Batching
 }
 
 // NewShareAvailability creates a new light Availability.
@@ -70,6 +72,7 @@ func NewShareAvailability(
 		samplingWindow: availability.SamplingWindow,
 		activeHeights:  utils.NewSessions(),
 		ds:             autoDS,
+		rawDS:          ds,
 	}
 }
 
@@ -190,6 +193,19 @@ func (la *ShareAvailability) storeResult(ctx context.Context, key datastore.Key,
 	}
 	la.dsLk.Lock()
 	defer la.dsLk.Unlock()
+	if err := la.writeThrough(ctx, key, data); err != nil {
+		// A write that failed half-way may still sit in the write buffer. Reads are served from
+		// the buffer first, so later calls would load that result - and request its coordinates -
+		// although it is not durable: after a stop without Close it is gone and the coordinates
+		// are drawn anew. Drop the buffer, so that only what the datastore holds is ever read.
+		la.ds = autobatch.NewAutoBatching(la.rawDS, writeBatchSize)
+		return err
+	}
+	return nil
+}
+
+// writeThrough puts the value into the write buffer and flushes the buffer.
+func (la *ShareAvailability) writeThrough(ctx context.Context, key datastore.Key, data []byte) error {
 	if err := la.ds.Put(ctx, key, data); err != nil {
 		return fmt.Errorf("store sampling result: %w", err)
 	}
